@@ -123,6 +123,85 @@ def accessor_test(S):
     return "\n".join(out) + "\n", n
 
 
+def clist_mismatch(dump, ents):
+    """ents: [(name, [supertypes])]; returns a description of the first difference between the CLIST lines of the dump
+    (harness/h_dict.cc: the ComplexList of each root supertype and the entities it holds) and the schema, or None"""
+    subs = {}
+    for n, sups in ents:
+        for s_ in sups:
+            subs.setdefault(s_, []).append(n)
+    want = {}
+    for n, sups in ents:
+        if not sups and subs.get(n):
+            seen, todo = set(), [n]
+            while todo:
+                x = todo.pop()
+                if x not in seen:
+                    seen.add(x)
+                    todo += subs.get(x, [])
+            want[n] = sorted(seen)
+    got = {}
+    for l in dump.split("\n"):
+        p_ = l.split()
+        if p_[:1] == ["CLIST"]:
+            got[p_[1]] = sorted(set(p_[2:]))
+    for n in sorted(want):
+        if n not in got:
+            return "no complex-instance structure is generated for supertype %s (subtypes %s)" % (n, want[n])
+        if got[n] != want[n]:
+            return "the complex-instance structure of supertype %s holds %s, its subtypes in the schema are %s" % (n, got[n], want[n])
+    for n in sorted(got):
+        if n not in want:
+            return "a complex-instance structure is generated for %s, which is not a root supertype" % n
+    return None
+
+
+# schemas/c02_fixed.exp: what a fresh instance of each entity exposes (name* = derived: written as an asterisk)
+FIXED_INST = {
+    "base_q": "qn", "sub_q": "qn,extra", "base_p": "tag,load",
+    "narrow_p": "tag,load,base_p.load,more", "narrow_last": "tag,load,own,base_p.load",
+    "derive_p": "tag*,load", "both_p": "tag*,load,base_p.load,more",
+    "vehicle": "wheels", "car": "wheels", "truck": "wheels", "electric": "wheels,volts", "duck": "wheels",
+}
+FIXED_ENTS = [("base_q", []), ("sub_q", ["base_q"]), ("base_p", []), ("narrow_p", ["base_p"]), ("narrow_last", ["base_p"]),
+              ("derive_p", ["base_p"]), ("both_p", ["narrow_p"]), ("vehicle", []), ("car", ["vehicle"]), ("truck", ["vehicle"]),
+              ("electric", ["vehicle"]), ("amphibian", ["vehicle"]), ("duck", ["amphibian"])]
+FIXED_KINDS = {("narrow_p", "base_p.load"): "redefining", ("narrow_last", "base_p.load"): "redefining",
+               ("derive_p", "base_p.tag"): "derived", ("both_p", "base_p.tag"): "derived"}
+
+
+def fixed_schema_problems(bdir):
+    """redeclared attributes and implicit subtypes (schemas/c02_fixed.exp): list of differences from the schema"""
+    out_ = []
+    sl = schema_lib(bdir, os.path.join(VERIF, "schemas", "c02_fixed.exp"))
+    if not sl["ok"]:
+        return ["the code exp2cxx emits for schemas/c02_fixed.exp does not compile: %s" % sl["log"][-300:]]
+    exe = schema_harness(bdir, sl, "h_dict")
+    rc, out, err = sh([exe], timeout=120)
+    if rc != 0:
+        return ["h_dict dies on schemas/c02_fixed.exp (status %d)" % rc]
+    inst, kinds = {}, {}
+    for l in out.split("\n"):
+        p_ = l.split()
+        if p_[:1] == ["INST"] and len(p_) >= 3:
+            inst[p_[1]] = p_[2].split("=", 1)[1] if "=" in p_[2] else p_[2]
+        elif p_[:1] == ["ATTR"] and len(p_) >= 4:
+            kinds[(p_[1], p_[2])] = p_[3].split("=", 1)[1]
+    for en, want in sorted(FIXED_INST.items()):
+        if inst.get(en) != want:
+            out_.append("c02_fixed: a new %s exposes attributes [%s], the schema gives [%s] (name* = derived, written as an asterisk; "
+                        "base_p.x = the redeclaring attribute, not written)" % (en, inst.get(en), want))
+    if "amphibian" in inst and inst["amphibian"] != "none":
+        out_.append("c02_fixed: the ABSTRACT entity amphibian can be instantiated through the registry")
+    for key, want in sorted(FIXED_KINDS.items()):
+        if kinds.get(key) != want:
+            out_.append("c02_fixed: attribute %s of %s is recorded as %s, the schema says %s" % (key[1], key[0], kinds.get(key), want))
+    cm = clist_mismatch(out, FIXED_ENTS)
+    if cm:
+        out_.append("c02_fixed: " + cm)
+    return out_
+
+
 def main(tier, seed):
     res = Result(PID, tier, seed)
     pr = coq_prove(PID)
@@ -284,6 +363,12 @@ def main(tier, seed):
             extra = set(ents) - {e["name"].lower() for e in S.entities}
             if extra:
                 bad("registry entities %s are not in the schema" % sorted(extra))
+            # the structures generated for externally mapped instances: one list per root supertype, holding all its descendants
+            # (listed in its SUPERTYPE OF expression or not)
+            bad_cl = clist_mismatch(out, [(e["name"].lower(), [x.lower() for x in e["supers"]]) for e in S.entities])
+            hist["clists"] = hist.get("clists", 0) + 1
+            if bad_cl:
+                bad(bad_cl)
             for t in S.types:
                 tn = t["name"].lower()
                 hist["types"] += 1
@@ -353,6 +438,14 @@ def main(tier, seed):
             seen.add(key)
             oracle_fail += 1
             res.violation(msg, {"input_file": save("c02-%d-%d.exp" % (seed, k), text), "replay": "exp2cxx the schema, compile, run harness/h_dict.cc"}, signature=sig)
+    # the fixed schema with the constructs the generator does not produce
+    try:
+        evals += 1
+        for msg in fixed_schema_problems(bdir):
+            oracle_fail += 1
+            res.violation(msg, {"input_file": os.path.join(VERIF, "schemas", "c02_fixed.exp"), "replay": "exp2cxx schemas/c02_fixed.exp, compile, run harness/h_dict.cc"})
+    except BuildError as e:
+        res.violation("build failed: %s" % e, {"error": str(e)}, found_input=False)
     shutil.rmtree(wroot, ignore_errors=True)
     if not pr["ok"]:
         res.violation("Properties_C02.v no longer checks (%s)" % ", ".join(pr["failed"] or ["see log"]),
